@@ -23,7 +23,11 @@ def make_sub(tmpdir, d, absence, how, unit_min, tag, post_insert=None, backward=
     """a sub-project of pure duration d (one task, one worker), simulated as requested and saved"""
     sp = {"tasks": [{"name": "S0", "work": float(d)}], "links": [], "unit_min": unit_min,
           "teams": [{"name": "TM0", "targets": [0], "workers": [{"name": "SW0", "skills": {"S0": 1.0}, "cost": 1.0}]}]}
+    if how == "all-done":
+        sp["tasks"][0]["progress"] = 1.0  # every task complete from the start; the project is only initialised, never simulated (status NONE)
     m = S.build(sp)
+    if how == "all-done":
+        m.project.initialize()
     if how == "success" and paused is not None:
         # the sub-project's own run was stopped after `paused` steps and continued (same calendar, state and logs kept)
         m.project.simulate(max_time=paused, absence_time_list=list(absence))
@@ -234,6 +238,30 @@ def one(tmpdir, d, absence, how, remove, u_sub, u_parent, position, tag, prior=N
         elif ks != list(range(T - want, T)):
             out.append(("C20:sub-project-task-not-at-the-end-of-the-backward-run(latest-due-tail)", det))
         return out, want
+    if extra == "paused-parent-calendar":
+        # the parent is stopped inside the sub-project task's run and continued with the same calendar, which has a day off before the stop and one after it
+        want = int(math.ceil(dur * _ratio(u_sub, u_parent) - 1e-9))
+        start = 0
+        k = max(3, want // 2 + 1)
+        cal = [1, k + 1]
+        try:
+            m.project.simulate(max_time=k, absence_time_list=list(cal))
+            m.project.simulate(max_time=MT, absence_time_list=list(cal), initialize_state_info=False, initialize_log_info=False)
+        except Exception as e:
+            return out + [("C20:parent-simulate-raised:%s" % type(e).__name__, {"error": repr(e)})], None
+        rem = list(t.remaining_work_amount_record_list)
+        expect, i = [], start
+        while len(expect) < want:
+            if i not in cal:
+                expect.append(i)
+            i += 1
+        prog = [i for i in range(len(rem)) if (rem[i - 1] if i else float(dur)) - rem[i] > 1e-9]
+        det = {"sub_duration": dur, "u_sub": u_sub, "u_parent": u_parent, "position": position, "paused_at": k, "calendar": cal, "remaining_log": rem[:14], "progress_steps": prog, "expected_progress_steps": expect}
+        if int(m.project.status) != 1:
+            out.append(("C20:parent-did-not-complete", det))
+        elif want >= 3 and prog != expect:
+            out.append(("C20:sub-project-task-progress-steps-wrong-in-a-parent-run-stopped-and-continued-under-a-calendar", det))
+        return out, want
     if extra == "reconfigure-at-pause":
         want = int(math.ceil(dur * _ratio(u_sub, u_parent) - 1e-9))
         start = 2 if position == "after-pred" else 0
@@ -405,6 +433,8 @@ def items(tier):
                 out.append((d, (), "success", True, us, up, pos, None, False, None, "failed-backward"))
             for pos in ("alone", "after-pred"):
                 out.append((max(d, 2) * 2, (), "success", True, us, up, pos, None, False, None, "reconfigure-at-pause"))
+            out.append((max(d, 3) * 2, (), "success", True, us, up, "alone", None, False, None, "paused-parent-calendar"))
+            out.append((max(d, 3) * 3, (), "success", False, us, up, "alone", None, False, None, "paused-parent-calendar"))
         if d == durs[-1]:
             for dl in (101, 150, 240):  # very long sub-projects on unit ratios without a finite binary expansion (300 to 1000 parent steps: rounding may not add up)
                 for us, up in ((3, 1), (7, 1), (9, 4), (7, 3), (11, 1), (1, 1)):
@@ -444,7 +474,7 @@ def items(tier):
             for remove in (True, False):
                 for us, up in ((1, 1), (3, 2)):
                     out.append((d, ab, "success", remove, us, up, "alone" if us == 1 else "after-pred", None, False, None, "sub-backward"))
-        for how in ("failure", "never"):
+        for how in ("failure", "never", "all-done"):
             for remove in (True, False):
                 out.append((d, (), how, remove, 1, 1, "alone", None))
                 out.append((d, (0,), how, remove, 2, 3, "after-pred", None))
